@@ -615,8 +615,17 @@ pub fn gen_program_tfc(rng: &mut Rng) -> Program {
     }
     // chains above the gates
     let mut tops = gates.clone();
+    // plain readers of single firewalls (added after seeded change C01-4): a
+    // node above a gate and such a reader keeps a firewall in its set through
+    // a child that no switch ever touches
+    for f in &fws {
+        if rng.chance(1, 2) {
+            nodes.push(Node { kind: Kind::Nm, expr: Expr::Read(*f) });
+            tops.push(nodes.len() as u32 - 1);
+        }
+    }
     for _ in 0..rng.range(1, 4) {
-        let below = *rng.pick(&tops);
+        let below = *rng.pick(&gates);
         let e = match rng.below(4) {
             0 => Expr::Add(b(Expr::Read(below)), b(Expr::Const(vec![1]))),
             1 => Expr::Add(b(Expr::Read(below)), b(Expr::Read(*rng.pick(&tops)))),
@@ -627,6 +636,103 @@ pub fn gen_program_tfc(rng: &mut Rng) -> Program {
         tops.push(nodes.len() as u32 - 1);
     }
     Program { nodes }
+}
+
+/// Wide shapes (added after the seeded changes C01-5 and C02-4): one firewall
+/// with 5-14 projections, each with a reader of its own, and nodes that read
+/// 5-14 nodes in one unordered group. The engine splits such fans into chunks
+/// of `len / (4 * available_parallelism)`; together with `RunCfg::cpus` (1 or
+/// 2) the chunking has several chunks and a remainder.
+pub fn gen_program_wide(rng: &mut Rng) -> Program {
+    let mut nodes: Vec<Node> = Vec::new();
+    let n_in = rng.range(2, 4) as u32;
+    for _ in 0..n_in {
+        nodes.push(Node { kind: Kind::In, expr: Expr::Const(vec![]) });
+    }
+    let ins: Vec<u32> = (0..n_in).collect();
+    // the firewall concatenates inputs so that projections can pick elements
+    let fw_expr = Expr::Cat(b(Expr::Read(ins[0])), b(Expr::Cat(b(Expr::Read(ins[1])), b(Expr::Read(*rng.pick(&ins))))));
+    nodes.push(Node { kind: Kind::Fw, expr: fw_expr });
+    let fw = nodes.len() as u32 - 1;
+    let n_pj = rng.range(5, 14) as u32;
+    let mut readers: Vec<u32> = Vec::new();
+    let mut pjs: Vec<u32> = Vec::new();
+    for i in 0..n_pj {
+        let e = match rng.below(3) {
+            0 => Expr::Idx(b(Expr::Read(fw)), i % 6),
+            1 => Expr::Mod(b(Expr::Idx(b(Expr::Read(fw)), i % 6)), 2),
+            _ => Expr::Add(b(Expr::Idx(b(Expr::Read(fw)), i % 6)), b(Expr::Const(vec![i64::from(i)]))),
+        };
+        nodes.push(Node { kind: Kind::Pj, expr: e });
+        pjs.push(nodes.len() as u32 - 1);
+    }
+    for p in &pjs {
+        let e = if rng.chance(1, 3) { Expr::Add(b(Expr::Read(*p)), b(Expr::Const(vec![1]))) } else { Expr::Read(*p) };
+        nodes.push(Node { kind: Kind::Nm, expr: e });
+        readers.push(nodes.len() as u32 - 1);
+    }
+    // leaves for the unordered groups: plain functions of single inputs
+    let n_leaf = rng.range(5, 14) as u32;
+    let mut leaves: Vec<u32> = Vec::new();
+    for i in 0..n_leaf {
+        let src = ins[(i % n_in) as usize];
+        let e = match rng.below(3) {
+            0 => Expr::Read(src),
+            1 => Expr::Mod(b(Expr::Read(src)), 2),
+            _ => Expr::Add(b(Expr::Read(src)), b(Expr::Const(vec![i64::from(i)]))),
+        };
+        nodes.push(Node { kind: Kind::Nm, expr: e });
+        leaves.push(nodes.len() as u32 - 1);
+    }
+    for _ in 0..rng.range(1, 2) {
+        let mut v = leaves.clone();
+        rng.shuffle(&mut v);
+        v.truncate(rng.range(5, u64::from(n_leaf)) as usize);
+        nodes.push(Node { kind: Kind::Nm, expr: Expr::Unord(v) });
+    }
+    // one node over many readers
+    {
+        let mut v = readers.clone();
+        rng.shuffle(&mut v);
+        v.truncate(rng.range(3, 6).min(readers.len() as u64) as usize);
+        nodes.push(Node { kind: Kind::Nm, expr: Expr::Join(v) });
+    }
+    Program { nodes }
+}
+
+/// histories for `gen_program_wide`: compute everything, change one input,
+/// ask single readers (each must see the change through its own projection)
+pub fn gen_history_wide(rng: &mut Rng, prog: &Program) -> Vec<Op> {
+    let ins = prog.of_kind(Kind::In);
+    let mut st = HistState { inputs: ins.iter().map(|n| (*n, vec![], vec![])).collect() };
+    let n = prog.len();
+    let mut ops = vec![gen_session(rng, prog, &mut st, true)];
+    let tops: Vec<u32> = (0..n).filter(|i| prog.kind(*i) == Kind::Nm).collect();
+    // first epoch: everything is computed
+    for t in &tops {
+        ops.push(Op::Query { root: *t, new_tracked: false });
+    }
+    for _ in 0..rng.range(1, 3) {
+        // a changing session
+        let idx = rng.usize(st.inputs.len());
+        {
+            let (node, cur, prev) = &mut st.inputs[idx];
+            let mut v = small_val(rng);
+            if v == *cur {
+                v.push(3);
+            }
+            *prev = cur.clone();
+            *cur = v.clone();
+            ops.push(Op::Session { steps: vec![SessStep::Set { node: *node, val: v }], commit: true });
+        }
+        let mut order = tops.clone();
+        rng.shuffle(&mut order);
+        order.truncate(rng.range(2, 8).min(order.len() as u64) as usize);
+        for t in order {
+            ops.push(Op::Query { root: t, new_tracked: rng.chance(1, 4) });
+        }
+    }
+    ops
 }
 
 /// histories for `gen_program_tfc`: switches and data move in separate
@@ -641,6 +747,32 @@ pub fn gen_history_tfc(rng: &mut Rng, prog: &Program) -> Vec<Op> {
         commit: true,
     }];
     let top = |rng: &mut Rng| n - 1 - rng.below(u64::from(n.min(4))) as u32;
+    if rng.chance(1, 2) {
+        // the pattern behind the seeded changes C01-1 and C01-4: one upper
+        // node is asked, a switch flips (often without changing any value, so
+        // the node is verified and only its firewall set is rebuilt), the node
+        // is asked again, then the data below the firewalls moves
+        let t = top(rng);
+        ops.push(Op::Query { root: t, new_tracked: true });
+        for _ in 0..rng.range(1, 3) {
+            let si = rng.usize(n_ins.div_ceil(2));
+            cur[si] = 1 - cur[si].clamp(0, 1);
+            ops.push(Op::Session { steps: vec![SessStep::Set { node: ins[si], val: vec![cur[si]] }], commit: true });
+            ops.push(Op::Query { root: t, new_tracked: true });
+            for _ in 0..rng.range(1, 2) {
+                let di = n_ins.div_ceil(2) + rng.usize((n_ins - n_ins.div_ceil(2)).max(1));
+                let di = di.min(n_ins - 1);
+                let mut v = *rng.pick(&[0, 1, 2, 5, 20]);
+                if v == cur[di] {
+                    v += 1;
+                }
+                cur[di] = v;
+                ops.push(Op::Session { steps: vec![SessStep::Set { node: ins[di], val: vec![v] }], commit: true });
+                ops.push(Op::Query { root: if rng.chance(3, 4) { t } else { top(rng) }, new_tracked: true });
+            }
+        }
+        return ops;
+    }
     for _ in 0..rng.range(3, 9) {
         if rng.chance(1, 2) {
             ops.push(Op::Query { root: top(rng), new_tracked: rng.chance(1, 2) });
